@@ -4,7 +4,7 @@
 (*                                                                             *)
 (* The harness drives AliceInit / BobMid[WC] / AliceEnd[WC] of the library and *)
 (* writes one ndjson line per call (ret = "ok" | "err") and one line per       *)
-(* alteration it applies to a ciphertext in transit. Real values (256 bit      *)
+(* alteration it applies to a message in transit. Real values (256 bit         *)
 (* secrets, 4096 bit ciphertexts) cannot live in TLC; the harness PROJECTS     *)
 (* every exchange onto the toy domain of MtA.tla:                              *)
 (*   a, b    : the input class of the real secret (0 -> 0, 1 -> 1, q-1 -> Q-1, *)
@@ -13,6 +13,10 @@
 (*   bpub/bobx : the toy point standing for the real public point (the honest  *)
 (*             one is b*G, a wrong one is any other representable point)       *)
 (*   kind    : the class of the alteration (see AlteredBy)                     *)
+(*   craft   : what was done to the proof travelling with the altered value:   *)
+(*             [alt |-> "none"] (left alone) or the row [alt, new] of the      *)
+(*             catalogue of MtACraft.tla that the harness concretised on the   *)
+(*             real transcript                                                 *)
 (* and every line carries observation booleans computed with math/big on the   *)
 (* real values by code independent of the library (CRT decryption with the     *)
 (* prime factors, affine secp256k1 arithmetic): they are the real-size         *)
@@ -20,6 +24,11 @@
 (* definition of beta). A line is explained iff the MtA action of that name is *)
 (* enabled in the current model state, takes the branch (accept / reject) the  *)
 (* real call took, and all observations of the line are TRUE.                  *)
+(* Histories: RetryA / RetryB (the genuine message delivered to the same       *)
+(* process after the altered one was refused) and LateA / LateB / LateP (an    *)
+(* altered message, or another point, presented after the genuine item was     *)
+(* accepted) are lines of their own; the model has no memory (Memo = "none"),  *)
+(* so a real verdict that depends on the history is not explained.             *)
 (* Many exchanges are concatenated; a Reset line starts a new one.             *)
 EXTENDS MtA, Json, IOUtils
 
@@ -35,14 +44,22 @@ TraceInit == l = 1 /\ Start(0, 0, P0, P0)
 IsEvent(name) == l <= Len(TraceLog) /\ TraceLog[l].ev = name /\ l' = l + 1
 ObsTrue(e)    == \A k \in DOMAIN e.obs : e.obs[k]
 
+OtherRnd(c) == [c EXCEPT !.rnd = IF c.rnd = 1 THEN 2 ELSE 1]
 (* the model ciphertext standing for a real alteration of class kind applied to c *)
 AlteredBy(kind, c) ==
-  CASE kind = "rerand"  -> [c EXCEPT !.rnd = IF c.rnd = 1 THEN 2 ELSE 1]   \* c * x^N : same plaintext
+  CASE kind = "rerand"  -> OtherRnd(c)                                      \* c * x^N : same plaintext
     [] kind = "addq"    -> [c EXCEPT !.pt = c.pt + Q]                      \* c * (1+N)^q : plaintext + q
     [] kind = "shift"   -> [c EXCEPT !.pt = c.pt + 1]                      \* c+1, c-1, c*(1+N), 1/c, random, c+N^2, -c : some other value
     [] kind = "other"   -> IF c = Enc("kA", 0, 1) THEN Enc("kA", Q - 1, 2) ELSE Enc("kA", 0, 1)  \* ciphertext of another exchange
     [] kind = "nonunit" -> [c EXCEPT !.unit = FALSE]                       \* 0, N, a multiple of a prime factor
     [] kind = "foreign" -> [c EXCEPT !.key = "kX"]                         \* made under another party's key
+    [] kind = "mulca"   -> IF HomoAdd(c, cA[1]) # c THEN HomoAdd(c, cA[1]) ELSE OtherRnd(c)   \* cB * cA : the multiplier becomes b + 1
+
+Range(s) == {s[i] : i \in 1..Len(s)}
+(* the catalogue row named by a line *)
+HasRow(site, cr) == cr.alt = "none" \/ \E r \in CRows : r.site = site /\ r.sys = SysAt(site) /\ r.alt = cr.alt /\ r.new = Range(cr.new)
+RowOf(site, cr)  == IF cr.alt = "none" THEN NoRow
+                    ELSE CHOOSE r \in CRows : r.site = site /\ r.sys = SysAt(site) /\ r.alt = cr.alt /\ r.new = Range(cr.new)
 
 TraceReset ==
   /\ IsEvent("Reset")
@@ -56,6 +73,9 @@ TraceReset ==
        /\ alice' = "idle" /\ bob' = "idle"
        /\ alpha' = -1 /\ beta' = -1 /\ mask' = -1
        /\ tampA' = FALSE /\ tampB' = FALSE
+       /\ sentB' = <<>> /\ memA' = {} /\ memB' = {}
+       /\ retriedA' = FALSE /\ retriedB' = FALSE
+       /\ lateA' = "none" /\ lateB' = "none" /\ lateP' = "none"
 
 TraceAliceInit ==
   /\ IsEvent("AliceInit")
@@ -67,7 +87,8 @@ TraceAliceInit ==
 TraceTamperCA ==
   /\ IsEvent("TamperCA")
   /\ netA # <<>>
-  /\ TamperCA(AlteredBy(TraceLog[l].kind, netA[1].c))
+  /\ HasRow("cA", TraceLog[l].craft)
+  /\ TamperCA(AlteredBy(TraceLog[l].kind, netA[1].c), RowOf("cA", TraceLog[l].craft))
 
 TraceBobMid ==
   /\ IsEvent("BobMid")
@@ -76,10 +97,16 @@ TraceBobMid ==
           \/ (e.ret = "err" /\ BobReject)
        /\ ObsTrue(e)
 
+TraceBobCraft ==
+  /\ IsEvent("BobCraft")
+  /\ TraceLog[l].craft.alt # "none" /\ HasRow("B", TraceLog[l].craft)
+  /\ BobCraft(RowOf("B", TraceLog[l].craft))
+
 TraceTamperCB ==
   /\ IsEvent("TamperCB")
   /\ netB # <<>>
-  /\ TamperCB(AlteredBy(TraceLog[l].kind, netB[1].c))
+  /\ HasRow("cB", TraceLog[l].craft)
+  /\ TamperCB(AlteredBy(TraceLog[l].kind, netB[1].c), RowOf("cB", TraceLog[l].craft))
 
 TraceAliceEnd ==
   /\ IsEvent("AliceEnd")
@@ -88,11 +115,36 @@ TraceAliceEnd ==
           \/ (e.ret = "err" /\ AliceReject)
        /\ ObsTrue(e)
 
-TraceNext == TraceReset \/ TraceAliceInit \/ TraceTamperCA \/ TraceBobMid \/ TraceTamperCB \/ TraceAliceEnd
+TraceRetryA == IsEvent("RetryA") /\ RetryA
+TraceRetryB == IsEvent("RetryB") /\ RetryB
+
+(* a later presentation: the model's verdict (it has no memory) must be the one the real call returned *)
+Agrees(ret, verdict) == (ret = "ok") = (verdict = "accepted")
+TraceLateA ==
+  /\ IsEvent("LateA")
+  /\ LET e == TraceLog[l] IN
+       /\ lateA # "accepted" /\ HasRow("cA", e.craft)
+       /\ LateA(AlteredBy(e.kind, cA[1]), RowOf("cA", e.craft))
+       /\ Agrees(e.ret, lateA')
+TraceLateB ==
+  /\ IsEvent("LateB")
+  /\ LET e == TraceLog[l] IN
+       /\ lateB # "accepted" /\ sentB # <<>> /\ HasRow("cB", e.craft)
+       /\ LateB(AlteredBy(e.kind, sentB[1].c), RowOf("cB", e.craft))
+       /\ Agrees(e.ret, lateB')
+TraceLateP ==
+  /\ IsEvent("LateP")
+  /\ LET e == TraceLog[l] IN
+       /\ lateP # "accepted" /\ HasRow("B", e.craft)
+       /\ LateP(e.bpub, RowOf("B", e.craft))
+       /\ Agrees(e.ret, lateP')
+
+TraceNext == \/ TraceReset \/ TraceAliceInit \/ TraceTamperCA \/ TraceBobMid \/ TraceBobCraft \/ TraceTamperCB \/ TraceAliceEnd
+             \/ TraceRetryA \/ TraceRetryB \/ TraceLateA \/ TraceLateB \/ TraceLateP
 TraceSpec == TraceInit /\ [][TraceNext]_tvars
 
 (* the design invariants, evaluated on every state of every real exchange *)
-TraceInv == TypeOK /\ SharesAddUp /\ HonestCompletes /\ NoWrap /\ TamperRejected /\ CheckRejects
+TraceInv == TypeOK /\ SharesAddUp /\ HonestCompletes /\ NoWrap /\ TamperRejected /\ CheckRejects /\ LateRejected /\ HistoryFree
 
 (* high-water mark of consumed lines; needs -workers 1 *)
 ASSUME TLCSet(1, 0)
